@@ -1,5 +1,6 @@
 pub mod alloc;
 pub mod explore;
+pub mod guard;
 pub mod refcodec;
 pub mod report;
 pub mod val;
